@@ -88,6 +88,9 @@ func CompareGlobals(in *refmal.Interp, e types.EnvType, candidates []string) str
 			case *refmal.Native, *refmal.NativeMacro:
 				continue
 			}
+			if n == "not" {
+				continue
+			}
 		}
 		rv, ok := Lookup(e, n)
 		if !ok {
